@@ -17,6 +17,7 @@ from typing import Any, ForwardRef, Optional, Tuple, Union
 
 import typing_extensions
 
+from mashumaro.config import ADD_DIALECT_SUPPORT
 from mashumaro.core.const import PY_311_MIN
 from mashumaro.core.meta.code.lines import CodeLines
 from mashumaro.core.meta.helpers import (
@@ -261,18 +262,29 @@ def pack_dataclass(spec: ValueSpec) -> Optional[Expression]:
                     format_name=spec.builder.format_name,
                     default_dialect=spec.builder.default_dialect,
                 ).add_pack_method()
-            builder = spec.builder.__class__(
-                spec.origin_type,
-                type_args,
-                dialect=spec.builder.dialect,
-                format_name=spec.builder.format_name,
-                default_dialect=spec.builder.default_dialect,
-                attrs=method_loc,
-                attrs_registry=(
-                    spec.attrs_registry if not spec.builder.is_nailed else None
-                ),
-            )
-            builder.add_pack_method()
+                # a class without dialect support has no per-dialect cache
+                # and is always called through its plain method
+                build_for_dialect = (
+                    spec.builder.is_code_generation_option_enabled(
+                        ADD_DIALECT_SUPPORT, spec.origin_type
+                    )
+                )
+            else:
+                build_for_dialect = True
+            if build_for_dialect:
+                spec.builder.__class__(
+                    spec.origin_type,
+                    type_args,
+                    dialect=spec.builder.dialect,
+                    format_name=spec.builder.format_name,
+                    default_dialect=spec.builder.default_dialect,
+                    attrs=method_loc,
+                    attrs_registry=(
+                        spec.attrs_registry
+                        if not spec.builder.is_nailed
+                        else None
+                    ),
+                ).add_pack_method()
         flags = spec.builder.get_pack_method_flags(spec.type)
         if spec.builder.is_nailed:
             return f"{spec.expression}.{method_name}({flags})"
